@@ -121,6 +121,11 @@ func (a *AcctRequest) Validate() error {
 			return err
 		}
 	}
+	for _, t := range []Field{a.User, a.Port, a.RemAddr, a.Args} {
+		if err := validateWireLen("AcctRequest field", t.Len(), maxUint8Len); err != nil {
+			return err
+		}
+	}
 	for _, t := range a.Args {
 		if err := AcctArg(t).Validate(nil); err != nil {
 			return err
@@ -288,6 +293,11 @@ func (a *AcctReply) Validate() error {
 	// validate
 	for _, t := range []Field{a.Status, a.ServerMsg, a.Data} {
 		if err := t.Validate(nil); err != nil {
+			return err
+		}
+	}
+	for _, t := range []Field{a.ServerMsg, a.Data} {
+		if err := validateWireLen("AcctReply field", t.Len(), maxUint16Len); err != nil {
 			return err
 		}
 	}
